@@ -98,6 +98,7 @@ Definition py_startswith (j : json) (p : str) : res bool :=
 Inductive mode := Claude | Gemini | Cursor.
 Definition mode_eqb (a b : mode) : bool :=
   match a, b with Claude, Claude | Gemini, Gemini | Cursor, Cursor => true | _, _ => false end.
+Definition is_cursor (m : mode) : bool := match m with Cursor => true | _ => false end.
 
 (* str.lower() restricted to what matters for membership in ENV_TRUTHY: no non-ASCII character
    lowers to a character of "1", "true", "yes" (checked by the harness over all of Unicode) *)
@@ -185,6 +186,12 @@ Record output := { stdout : list item; exit_code : nat; traceback : bool }.
 
 Definition crash : output := {| stdout := []; exit_code := 1; traceback := true |}.
 Definition done (l : list item) : output := {| stdout := l; exit_code := 0; traceback := false |}.
+
+(* where the command is: the shape of the input decides; a forced Cursor mode only when the input has
+   neither key.   "tool_name" not in input_data and (MODE == "cursor" or "command" in input_data) *)
+Definition cursor_way (mode_is_cursor : bool) (inp : json) : res bool :=
+  has_tool_name <- py_in $"tool_name" inp ;;
+  if negb has_tool_name then (if mode_is_cursor then Ok true else py_in $"command" inp) else Ok false.
 
 Definition msg_or_empty (r : rule) : str := match r_message r with Some m => m | None => [] end.
 
@@ -328,11 +335,12 @@ Section Main.
 
   Definition after_config (m : mode) (inp : json) (cfg : config) (cwd : str) : res (list item) :=
     hook_event <- py_get inp $"hook_event_name" (JStr $"PreToolUse") ;;
-    match m with
-    | Cursor =>
+    (* `"tool_name" not in input_data and (MODE == "cursor" or "command" in input_data)` *)
+    cursor_way <- cursor_way (is_cursor m) inp ;;
+    if cursor_way then
         command <- py_get inp $"command" (JStr []) ;;
         shell_tail m inp hook_event command cfg cwd
-    | _ =>
+    else
         tool_name <- py_get inp $"tool_name" (JStr []) ;;
         tool_input <- py_get inp $"tool_input" (JObj []) ;;
         is_mcp <- py_startswith tool_name $"mcp__" ;;
@@ -342,8 +350,7 @@ Section Main.
           if negb in_shell then Ok [J (JObj [])]
           else
             command <- py_get tool_input $"command" (JStr []) ;;
-            shell_tail m inp hook_event command cfg cwd
-    end.
+            shell_tail m inp hook_event command cfg cwd.
 
   Definition find_cwd (inp : json) : res str :=
     cwd_str <- py_get inp $"cwd" JNull ;;
@@ -362,7 +369,10 @@ Section Main.
     m <- (match explicit with Some m => Ok m | None => detect_mode_from_input inp end) ;;
     cwd <- find_cwd inp ;;
     match load_stage cwd with
-    | Raise (ConfigError msg) => Ok [J (ask m ($"config error: " ++ msg))]
+    | Raise (ConfigError msg) =>
+        (* PostToolUse is advisory only: never answered with a permission decision *)
+        hook_event <- py_get inp $"hook_event_name" JNull ;;
+        if py_eq_str hook_event $"PostToolUse" then Ok [] else Ok [J (ask m ($"config error: " ++ msg))]
     | Raise e => Raise e
     | Ok cfg => after_config m inp cfg cwd
     end.
@@ -569,10 +579,11 @@ Section Core.
           end
     end.
 
-  (* [cursor] = "the input is read the Cursor way" is the only thing the mode decides *)
+  (* [cursor] = "the mode is Cursor": consulted only when the input has neither tool_name nor command *)
   Definition core_after_config (cursor : bool) (inp : json) (cfg : config) (cwd : str) : res outcome :=
     hook_event <- py_get inp $"hook_event_name" (JStr $"PreToolUse") ;;
-    if cursor then
+    cw <- cursor_way cursor inp ;;
+    if cw then
       command <- py_get inp $"command" (JStr []) ;;
       core_shell inp hook_event command cfg cwd
     else
@@ -590,7 +601,9 @@ Section Core.
   Definition core (cursor : bool) (inp : json) : res outcome :=
     cwd <- find_cwd o_resolve o_getcwd inp ;;
     match load_stage o_load_config o_configure_logging cwd with
-    | Raise (ConfigError msg) => Ok (ODecision Ask ($"config error: " ++ msg))
+    | Raise (ConfigError msg) =>
+        hook_event <- py_get inp $"hook_event_name" JNull ;;
+        if py_eq_str hook_event $"PostToolUse" then Ok OSilent else Ok (ODecision Ask ($"config error: " ++ msg))
     | Raise e => Raise e
     | Ok cfg => core_after_config cursor inp cfg cwd
     end.
@@ -600,7 +613,6 @@ Arguments core_shell {S G}.
 Arguments core_mcp {S G}.
 Arguments core_after_config {S G}.
 Arguments core {S G}.
-Definition is_cursor (m : mode) : bool := match m with Cursor => true | _ => false end.
 
 (* ------------------------------------------------------------------ the three input shapes (C12_same) *)
 (* fields every host may add: hook_event_name, permission_mode, ... (never the routing keys) *)
